@@ -337,15 +337,21 @@ static void STUB_page_deallocate(struct padded_page *p) {
     __CPROVER_assert(p == &CURO && g_role == POP && g_idx == items_per_page - 1 && me_unlinked && !cur_freed, "C09.page: a page is freed only by the pop of its last slot, after that pop removed it from the lane's list, once");
     n_free++; cur_freed = true;
 }
-#define LANE_ASSIGNS Q, BASE, g_linked, g_unlinked, PREVO, CURO, S, my_nie, g_exc
-#define LOOP_turn_1 __CPROVER_assigns(LANE_ASSIGNS) __CPROVER_loop_invariant(INV && SNAP_CUR && !g_exc && my_nie == __CPROVER_loop_entry(my_nie))
-#define LOOP_swweq_1 __CPROVER_assigns(LANE_ASSIGNS, snapshot) __CPROVER_loop_invariant(INV && SNAP_CUR && snapshot == *location)
-#define LOOP_swueq_1 __CPROVER_assigns(LANE_ASSIGNS, snapshot) __CPROVER_loop_invariant(INV && SNAP_CUR && snapshot == *location)
+#define LANE_ASSIGNS Q, BASE, g_linked, g_unlinked, PREVO, CURO, S
+/* the rely is transitive: whatever the environment did during a spin loop, the counters did not go back */
+#define RELY_SINCE_ENTRY (Q.tail_counter >= __CPROVER_loop_entry(Q.tail_counter) && Q.head_counter >= __CPROVER_loop_entry(Q.head_counter) && g_linked >= __CPROVER_loop_entry(g_linked) && g_unlinked >= __CPROVER_loop_entry(g_unlinked))
+#define LOOP_turn_1 __CPROVER_assigns(LANE_ASSIGNS, my_nie, g_exc) __CPROVER_loop_invariant(INV && SNAP_CUR && RELY_SINCE_ENTRY && !g_exc && my_nie == __CPROVER_loop_entry(my_nie))
+#define LOOP_swweq_1 __CPROVER_assigns(LANE_ASSIGNS, snapshot) __CPROVER_loop_invariant(INV && SNAP_CUR && RELY_SINCE_ENTRY && snapshot == *location)
+#define LOOP_swueq_1 __CPROVER_assigns(LANE_ASSIGNS, snapshot) __CPROVER_loop_invariant(INV && SNAP_CUR && RELY_SINCE_ENTRY && snapshot == *location)
 #include "lane.inc"
 size_t IN_lg, IN_pg, IN_idx, IN_lowbits;
 static ticket_type lane_init(int role) {
-    g_role = role; g_lg = nondet_unsigned(); __CPROVER_assume(g_lg <= 5); items_per_page = (size_type)1 << g_lg; IN_lg = g_lg;
-    OBLIGATION(items_per_page == items_per_page_of((size_t)1 << (7 - g_lg)), "C09.slot: the six page-size classes are items_per_page = 1, 2, 4, 8, 16, 32");
+    g_role = role; g_lg = nondet_unsigned(); __CPROVER_assume(g_lg <= 5);
+#ifdef LANE_LG
+    g_lg = LANE_LG;
+#endif
+    items_per_page = (size_type)1 << g_lg; IN_lg = g_lg;
+    OBLIGATION(items_per_page == items_per_page_of((size_t)1 << (8 - g_lg)), "C09.slot: the six page-size classes are items_per_page = 1, 2, 4, 8, 16, 32");
     g_pg = IN_pg = nondet_size_t(); g_idx = IN_idx = nondet_size_t(); g_s = nondet_size_t(); __CPROVER_assume(g_pg < ((size_t)1 << 40) && g_idx < items_per_page && g_s < items_per_page);
     K8 = ((g_pg << g_lg) | g_idx) << 3;
     for (unsigned i = 0; i < 32; ++i) { gvalid[i] = nondet_bool(); gval[i] = nondet_ulong(); }
